@@ -73,8 +73,47 @@ def model_counts():
     return dict(zip(FAMS, res[0])), bool(res[1][0])
 
 
+KIND_FAM = {"Ingress": "ing", "VirtualServer": "vs", "VirtualServerRoute": "vsr", "TransportServer": "ts", "Policy": "pol",
+            "GlobalConfiguration": "gc", "Service": "svc", "EndpointSlice": "eps", "Secret": "secret"}
+
+
+def input_class(c):
+    """the input class of a panicking case, so that a known finding only covers its own class"""
+    fam = c["fam"]
+    if fam == "ing":
+        d = c["shape"]          # 1 d t m c a n h s k k2 r2
+        if d[4] == "1" and d[6] == "1" and d[7] == "2" and d[9] in "23":
+            return "challenge-label/one-rule/one-path/backend-without-service"
+        return "other"
+    if fam == "ts":
+        d = c["shape"]          # 1 l h t u p s a
+        if d[3] == "1" and d[2] == "0":
+            return "tls-block-without-secret/no-host"
+        return "other"
+    if fam == "rnd":
+        try:
+            o = json.loads(json.dumps(c.get("object")))
+            spec = o.get("spec") or {}
+            if c.get("kind") == "Ingress":
+                rules = spec.get("rules") or []
+                lab = (o.get("metadata") or {}).get("labels") or {}
+                if lab.get("acme.cert-manager.io/http01-solver") == "true" and len(rules) == 1:
+                    paths = ((rules[0].get("http") or {}).get("paths")) or []
+                    if len(paths) == 1 and not (paths[0].get("backend") or {}).get("service"):
+                        return "challenge-label/one-rule/one-path/backend-without-service"
+            if c.get("kind") == "TransportServer":
+                tls = spec.get("tls")
+                if tls is not None and not tls.get("secret") and not spec.get("host"):
+                    return "tls-block-without-secret/no-host"
+        except Exception:
+            pass
+        return "other"
+    return "other"
+
+
 def panic_sig(c, p):
-    return {"kind": "panic", "fam": c["fam"], "stage": p["stage"], "site": p["site"]}
+    fam = c["fam"] if c["fam"] != "rnd" else KIND_FAM.get(c.get("kind"), "rnd")
+    return {"kind": "panic", "fam": fam, "stage": p["stage"], "site": p["site"], "class": input_class(c)}
 
 
 def judge_shapes(run, cases, rows, counts=None):
@@ -96,6 +135,9 @@ def judge_shapes(run, cases, rows, counts=None):
                         theorem="Shapes.Cases.parse_*", found_input=False)
             continue
         seen[fam].add(c["shape"])
+        if fam != "ing" and c.get("admitted") is not True:
+            run.failing({"kind": "schema", "fam": fam}, [c], "%s shape %s is not admitted by the published CRD schema (config/crd/bases) although the model "
+                        "assumes every shape of this space is" % (fam, c["shape"]), theorem="admissibility of the CRD shape spaces", found_input=False)
         run.count_case({"fam": fam, "shape": c["shape"]}, bool(nontrivial))
         run.cov["traces_validated_against_impl"] += 1
         k = "%s:%s" % (fam, {0: "inadmissible", 1: "admissible"}[tag // 10] + "/" + {0: "ok", 1: "rejected", 2: "panic"}[tag % 10])
@@ -132,6 +174,7 @@ def judge_shapes(run, cases, rows, counts=None):
 
 def judge_random(run, cases):
     n_adm = 0
+    n_acc = 0
     kinds = {}
     for c in cases:
         if c.get("error"):
@@ -142,12 +185,15 @@ def judge_random(run, cases):
         kinds[c.get("kind", "?")] = kinds.get(c.get("kind", "?"), 0) + 1
         if adm:
             n_adm += 1
-        run.count_case({"kind": c.get("kind"), "object": c.get("object"), "flags": c.get("flags")}, bool(adm))
+            if c.get("accepted"):
+                n_acc += 1
+                kinds[c.get("kind", "?") + ":admitted+accepted"] = kinds.get(c.get("kind", "?") + ":admitted+accepted", 0) + 1
+        run.count_case({"kind": c.get("kind"), "object": c.get("object"), "flags": c.get("flags"), "ctx": c.get("ctx")}, bool(adm))
         if adm and c.get("panics"):
             p = c["panics"][0]
             run.failing(panic_sig(c, p), [c], "a schema-admissible %s makes the real code panic at stage %s in %s: %s"
                         % (c.get("kind"), p["stage"], p["site"], p["msg"][:160]), theorem="S: no panic on admissible objects")
-    run.cov["random_stream"] = {"cases": len(cases), "admitted": n_adm, "by_kind": kinds}
+    run.cov["random_stream"] = {"cases": len(cases), "admitted": n_adm, "admitted_and_accepted_by_the_validator": n_acc, "by_kind": kinds}
 
 
 def check(run):
